@@ -11,9 +11,16 @@ XNext == \/ \E w \in HWinIds : evald /\ HSetWin(w) /\ UNCHANGED hist
          \/ HEval /\ hist' = Append(hist, [w |-> win, grid |-> [k \in 1..Len(out') |-> out'[k].wn]])
 XSpec == XInit /\ [][XNext]_<<hvars, hist>>
 XBound == Len(hist) <= XMax /\ ((XShape = "fullmiddle" /\ Len(hist) = 3) => hist[2].w = 0)
+\* the native points inside the observation's own range (every restricted evaluation must at least compute these;
+\* how much more the clip keeps is the documented margin of Grid!GClip, which the statement does not prescribe)
+XInner(w) == IF ~HWins[w].cut THEN <<1, Len(HNat)>>
+             ELSE LET oc == HWins[w].oc
+                      I  == {i \in 1..Len(HNat) : HNat[i] >= oc[1] /\ HNat[i] <= oc[Len(oc)]}
+                  IN  IF I = {} THEN <<0, 0>> ELSE <<GSetMin(I), GSetMax(I)>>
 XEmit == /\ (hist = <<>> /\ win = 0) =>
               PrintT(<<"ALPHA", ToJson([alphabet |-> Alphabet, nat |-> HNat, mol |-> HMol, wins |-> HWins,
                                         clips |-> [w \in 1..Len(HWins) |-> <<HLo(w), HHi(w)>>],
+                                        inner |-> [w \in 1..Len(HWins) |-> XInner(w)],
                                         samesize |-> XSameSize, samefirst |-> XSameFirst, sameends |-> XSameEnds])>>)
          /\ (evald /\ (Len(hist) = XMax \/ (XShape = "fullmiddle" /\ Len(hist) = 2 /\ hist[2].w # 0))) =>
               PrintT(<<"BEH", ToJson([alphabet |-> Alphabet, evals |-> hist])>>)
